@@ -59,7 +59,7 @@ def key(e):
 
 
 class St:
-    __slots__ = ("env", "fver", "bind", "origin", "held", "names", "facts")
+    __slots__ = ("env", "fver", "bind", "origin", "held", "names", "facts", "nulls")
 
     def __init__(self):
         self.names = {}     # pointer key -> allocation site id it may name                may-information
@@ -69,17 +69,25 @@ class St:
         self.bind = {}      # pointer key -> (Term size, line)                     must-information
         self.origin = {}    # pointer key -> (Term expected size, description)     must-information
         self.held = {}      # key -> (what, line)                                   may-information (leaks)
+        self.nulls = {}     # pointer var id -> True (NULL) / False (a block)       must-information, part of the partition key
 
     def copy(self):
         s = St()
         s.env, s.fver, s.bind, s.origin, s.held = dict(self.env), dict(self.fver), dict(self.bind), dict(self.origin), dict(self.held)
         s.names, s.facts = dict(self.names), self.facts
+        s.nulls = dict(self.nulls)
         return s
 
     def join(self, o, where):
         ch = False
         for k in set(self.env) | set(o.env):
-            a, b = self.env.get(k, T(0, [(("v", k, 0), 1)])), o.env.get(k, T(0, [(("v", k, 0), 1)]))
+            a, b = self.env.get(k), o.env.get(k)
+            if a is b or a == b:
+                continue
+            if a is None:
+                a = T(0, [(("v", k, 0), 1)])
+            elif b is None:
+                b = T(0, [(("v", k, 0), 1)])
             if a != b:
                 n = T(0, [(("phi", where, k), 1)])
                 if self.env.get(k) != n:
@@ -97,6 +105,10 @@ class St:
                 if k not in other or other[k][0] != mine[k][0]:
                     del mine[k]
                     ch = True
+        for k in list(self.nulls):
+            if o.nulls.get(k) != self.nulls[k]:
+                del self.nulls[k]
+                ch = True
         for k, v in o.held.items():
             if k not in self.held:
                 self.held[k] = v
@@ -340,6 +352,14 @@ class Fn:
                     res = res or callres.get(json.dumps(a2, sort_keys=True)[:400])
         st.bind.pop(lk, None)
         st.origin.pop(lk, None)
+        if lhs.get("k") == "var" and "*" in lhs.get("ct", ""):
+            st.nulls.pop(lhs["id"], None)
+            if res and res[0] in ("block", "string"):
+                st.nulls[lhs["id"]] = False          # the allocation functions never return NULL (manual, Custom Allocation)
+            elif isinstance(r, dict) and r.get("k") == "int" and r["v"] == 0:
+                st.nulls[lhs["id"]] = True
+            elif isinstance(r, dict) and r.get("k") == "var" and r["id"] in st.nulls:
+                st.nulls[lhs["id"]] = st.nulls[r["id"]]
         if res:
             what, t, l0 = res
             if what == "block":
@@ -410,7 +430,26 @@ class Fn:
         return None
 
     def pkey(self, st):
-        return (st.facts, frozenset((v, tconst(st.env[v])) for v in self.flagvars if v in st.env and tconst(st.env[v]) is not None))
+        return (st.facts, frozenset((v, tconst(st.env[v])) for v in self.flagvars if v in st.env and tconst(st.env[v]) is not None),
+                frozenset((v, st.nulls[v]) for v in self.nullvars if v in st.nulls))
+
+    @staticmethod
+    def null_test(c):
+        """(var id, True if the condition holds when the pointer is NULL) for  p == NULL / p != 0 / p  on a local pointer"""
+        def strip(e):
+            while isinstance(e, dict) and e.get("k") == "cast":
+                e = e["e"]
+            return e
+        c = strip(c)
+        if isinstance(c, dict) and c.get("k") == "var" and "*" in c.get("ct", "") and not c.get("global"):
+            return (c["id"], False)
+        if isinstance(c, dict) and c.get("k") == "binop" and c["op"] in ("==", "!="):
+            l, r = strip(c["l"]), strip(c["r"])
+            for a, b in ((l, r), (r, l)):
+                if isinstance(a, dict) and a.get("k") == "var" and "*" in a.get("ct", "") and not a.get("global") \
+                        and isinstance(b, dict) and b.get("k") == "int" and b["v"] == 0:
+                    return (a["id"], c["op"] == "==")
+        return None
 
     def kill_facts(self, st, vid):
         if st.facts:
@@ -444,6 +483,15 @@ class Fn:
                         self.condvars[ck] = vs
                         self.flagvars |= vs
         repeated = {k for k, n in cnt.items() if n >= 2}
+        # local pointers that are compared with NULL: the  p = NULL; if (..) p = alloc; ...; if (p != NULL) free (p)  idiom
+        self.nullvars = set()
+        for b in fn["blocks"]:
+            t = b.get("term")
+            if t and t.get("cond") and len(b["succs"]) == 2:
+                c, _ = self.cond_of(t)
+                nt = self.null_test(c) if isinstance(c, dict) else None
+                if nt and nt[0] not in self.paramids:
+                    self.nullvars.add(nt[0])
         # only genuine flags (every assignment is an integer literal) are partitioned on, or loops would be unrolled
         notflag = set()
         for b in fn["blocks"]:
@@ -468,16 +516,18 @@ class Fn:
             repeated = set()
         if level < 1:
             self.flagvars = set()
+            self.nullvars = set()
         IN = collections.defaultdict(dict)
         s0 = St()
         IN[fn["entry"]][self.pkey(s0)] = s0
-        work = [fn["entry"]]
+        work = {fn["entry"]}
         it = 0
         while work:
             it += 1
             if it > (6000 if level else 40000):
                 raise OverflowError()
-            bid = work.pop()
+            bid = max(work)              # Clang numbers blocks in reverse topological order: entry is the highest
+            work.discard(bid)
             b = self.blocks[bid]
             for st0 in list(IN[bid].values()):
                 st = st0.copy()
@@ -491,6 +541,11 @@ class Fn:
                     if not isinstance(s, int):
                         continue
                     st2 = st
+                    nt = self.null_test(c) if isinstance(c, dict) else None
+                    if nt and nt[0] in self.nullvars and nt[0] in st.nulls:
+                        truth = (si == 0) != neg
+                        if (st.nulls[nt[0]] == nt[1]) != truth:
+                            continue                      # infeasible edge: the pointer is known (not) to be NULL here
                     if isinstance(c, dict) and ck in self.condvars:
                         truth = (si == 0) != neg
                         v = self.eval_cond(c, st)
@@ -515,9 +570,9 @@ class Fn:
                         if len(IN[s]) > 64:
                             raise OverflowError()
                         IN[s][pk] = st2.copy()
-                        work.append(s)
+                        work.add(s)
                     elif cur.join(st2, s):
-                        work.append(s)
+                        work.add(s)
 
     def block(self, b, st):
         callres = {}
@@ -571,12 +626,14 @@ class Fn:
 
 def run(prop="C04", tier="quick"):
     res = dict(findings=[], stats=collections.Counter(), samples=[], notes=[])
-    ex = sa.export(sa.Config("built-alloc", extra_files=[FIXTURE]))
+    ex = sa.export(sa.cfg_builtfx())
     sa.check_errors(ex)
     exc = set()
     for cols in spec_tsv("alloc_exceptions.tsv", 4):
         exc.add((cols[0], cols[1], cols[2]))
     for path, fn in ex.functions():
+        if sa.is_foreign_fixture(path, FIXTURE):
+            continue
         txt = None
         has = False
         for b in fn["blocks"]:
@@ -607,7 +664,8 @@ def run(prop="C04", tier="quick"):
     fx = [f for f in res["findings"] if f.file == FIXTURE]
     res["findings"] = [f for f in res["findings"] if f.file != FIXTURE]
     exp = {"fix_free_wrong_size": ("R-ALLOC.size", "free-size"), "fix_leak_local": ("R-ALLOC.pair", "leak:"),
-           "fix_leak_block": ("R-ALLOC.pair", "leak:"), "fix_alloc_good": None}
+           "fix_leak_block": ("R-ALLOC.pair", "leak:"), "fix_alloc_good": None,
+           "fix_alloc_null_sentinel": None, "fix_alloc_null_sentinel_bad": ("R-ALLOC.pair", "leak:")}
     for fname, e2 in exp.items():
         got = [(f.rule, f.signature) for f in fx if f.function == fname]
         if e2 is None and got:
@@ -622,6 +680,6 @@ def run(prop="C04", tier="quick"):
     res["undecided"] = st["size_undecided"]
     res["samples"].append(dict(rule="R-ALLOC", functions=st["functions"], allocator_sites=st["allocator_sites"],
                                size_proved=st["size_proved"], size_undecided=st["size_undecided"], local_objects=st["local_objects"]))
-    res["notes"].append("fixtures: 3 positive fired, 1 negative silent")
+    res["notes"].append("fixtures: 4 positive fired, 2 negative silent")
     res["exhaustive"] = True
     return res
